@@ -63,6 +63,9 @@ NONVACUITY = ["cases_judged", "user_statements_matched", "gsub_compared_nonempty
               "useExtension_statements_kept"]
 
 HAND_TAGS = ["kern", "mark", "mkmk", "curs"]
+# tags a listed writer generates; a hand-written block of one of them is subject to the
+# skip / append / marker rules (abvm and blwm: hand-written without marker only)
+OWNED_TAGS = HAND_TAGS + ["abvm", "blwm"]
 
 
 class HarnessGsubWriter(BaseFeatureWriter):
@@ -369,7 +372,7 @@ def _run(case):
         if not okx:
             lost = uleaves[missx]
             t = lost["topkey"][8:] if lost["topkey"].startswith("feature:") else None
-            sp = R.split_at_marker(udoc, t) if t in HAND_TAGS else None
+            sp = R.split_at_marker(udoc, t) if t in OWNED_TAGS else None
             viol("block_useExtension_lost", statement=lost["text"], tag=lost["xtag"],
                  marker_splits_block=bool(sp and sp["has_marker"] and sp["before"]
                                           and sp["after"]),
@@ -405,16 +408,16 @@ def _run(case):
         n_u = sum(1 for _, k in u_blocks if k == key)
         n_o = sum(1 for _, k in o_blocks if k == key)
         tag = key[8:] if key.startswith("feature:") else None
-        w = R.writer_for_tag(eff, tag) if tag in HAND_TAGS else None
+        w = R.writer_for_tag(eff, tag) if tag in OWNED_TAGS else None
         if key == "table:GDEF":
             _judge_gdef(U, Ot, n_u, n_o, viol, bump)
             continue
-        sp = R.split_at_marker(udoc, tag) if tag in HAND_TAGS else None
+        sp = R.split_at_marker(udoc, tag) if tag in OWNED_TAGS else None
         if w is None or (w["mode"] == "skip" and not sp["has_marker"]):
             # nothing may be generated into / for this block
             if Ot != U:
                 extra = len(Ot) - len(U)
-                viol("user_feature_regenerated_or_modified" if tag in HAND_TAGS
+                viol("user_feature_regenerated_or_modified" if tag in OWNED_TAGS
                      else "user_block_modified", key=key, n_user=len(U), n_output=len(Ot),
                      first_difference=_first_diff(U, Ot), extra_statements=extra,
                      writer=w, miscased_marker=bool(sp and sp["miscased"]))
@@ -433,6 +436,10 @@ def _run(case):
             # U then generated, generated in a block after the user's blocks
             if Ot[:len(U)] != U:
                 viol("append_changed_user_block", key=key, first_difference=_first_diff(U, Ot))
+            elif len(Ot) == len(U) and tag in ("abvm", "blwm"):
+                # whether the mark writer has above-/below-base rules to write depends on the
+                # declared scripts and the anchors: 'has something to write' is not guaranteed
+                bump("append_indic_nothing_generated")
             elif len(Ot) == len(U):
                 viol("append_generated_nothing", key=key, writer=w)
             else:
@@ -478,6 +485,8 @@ def _run(case):
         if sp["n_blocks"] > 1:
             bump("marker_in_one_of_two_blocks")
 
+    for t in (case.get("summary") or {}).get("indic_hand_written") or []:
+        bump("hand_written_" + t + "_blocks")
     nontrivial = judged_hand or (gsub_ref is not None and nl_ref > 0)
     return done("violated" if violations else "held", violations, nontrivial)
 
